@@ -10,7 +10,7 @@ import os
 from nvlib import engine as E
 from nvlib.check import Prop
 
-HEAD = ['#include "/include/vcommon.h"', 'string oid = "?";', 'int vsel;',
+HEAD = ['#include "/include/vcommon.h"', 'string oid = "?";', 'int vsel; GLOBALS',
         'void create () { seteuid (getuid ()); CREATE }',
         'void set_oid (string s) { oid = s; "/vreg"->reg (s, this_object ()); }',
         'void cb (string s) { VL ("cb " + s); }',
@@ -27,6 +27,7 @@ class Builder:
         self.n = 0
         self.files = {"t": {"fns": [], "vname": [], "create": ""}}
         self.prep = []
+        self.globals = []
         self.budget = budget
         self.kinds = {}
         self.in_rep = 0
@@ -76,7 +77,8 @@ class Builder:
                  ("efunp", 2), ("mapfp", 3), ("mapstr", 2), ("filterfp", 2), ("sortfp", 2), ("unique", 2),
                  ("catch", 7), ("raise", 3), ("throw", 2), ("safe", 3 if main and not self.in_safe else 0), ("setcg", 2 if main and self.use_setcg else 0),
                  ("install", 2 if main and not self.use_setcg else 0), ("installbad", 2 if main and not self.use_setcg else 0), ("load", 2 if main and not self.in_rep else 0),
-                 ("clone", 2 if main else 0)]
+                 ("clone", 2 if main else 0),
+                 ("inithook", 3 if main and not self.in_rep else 0), ("dhook", 3 if main and not self.in_rep else 0)]
         k = rng.weighted(kinds)
         self.count(k)
         t = "t"
@@ -197,6 +199,33 @@ class Builder:
                 self.prep.append('load_object ("%s");' % path)
                 stmts.append('new ("%s");' % path)
             ops.append("(tmp 1 (load (call other %s 0 0 (call local %s 0 0 %s))))" % (t, t, " ".join(o)))
+        elif k == "inithook":
+            # an object with an init() hook moves itself into the room where the living `mob` stands:
+            # move_object() sets command_giver = mob and applies init() in the object
+            i = self.fresh()
+            name = "I%d" % i
+            self.files[name] = {"fns": [], "vname": [], "create": "", "extra": []}
+            b, o = self.sub(name, depth)
+            f = self.fn(name, b)
+            path = "/c05/gen/%s" % name
+            self.files[name]["extra"] = ["void init () { %s (); }" % f, 'void go () { move_object ("/c05/room"); }']
+            self.prep.append('if (p0 = find_object ("%s")) destruct (p0); load_object ("%s");' % (path, path))
+            stmts.append('"%s"->go ();' % path)
+            ops.append("(call other %s 0 0 (tmp 1 (withcg mob (call other %s 0 0 (call local %s 0 0 %s)))))" % (t, t, t, " ".join(o)))
+        elif k == "dhook":
+            # destruct() of a container applies move_or_destruct() in its content under restrict_destruct
+            i = self.fresh()
+            name = "D%d" % i
+            self.files[name] = {"fns": [], "vname": [], "create": "", "extra": []}
+            b, o = self.sub(name, depth)
+            f = self.fn(name, b)
+            path = "/c05/gen/%s" % name
+            self.files[name]["extra"] = ["void move_or_destruct (object d) { %s (); }" % f, "void enter (object b) { move_object (b); }"]
+            self.globals.append("object box%d;" % i)
+            self.prep.append('if (p0 = find_object ("%s")) destruct (p0); if (box%d) destruct (box%d); '
+                             'box%d = new ("/c05/box"); load_object ("%s"); "%s"->enter (box%d);' % (path, i, i, i, path, path, i))
+            stmts.append("destruct (box%d);" % i)
+            ops.append("(tmp 1 (dhook %s (call other %s 1 1 (call local %s 0 0 %s))))" % (t, t, t, " ".join(o)))
         return False
 
     def source(self, name):
@@ -205,7 +234,9 @@ class Builder:
         protos = []
         for fn in f["fns"]:
             protos.append(fn.split("{", 1)[0].strip() + ";")
-        lines = HEAD[:3] + protos + [l.replace("CREATE", f["create"]) for l in HEAD[3:]]
+        gl = " ".join(self.globals) if name == "t" else ""
+        lines = [l.replace("GLOBALS", gl) for l in HEAD[:3]] + protos + [l.replace("CREATE", f["create"]) for l in HEAD[3:]]
+        lines += f.get("extra", [])
         lines.append("string vname () { %s return \"n\"; }" % " ".join(f["vname"]))
         lines += f["fns"]
         if name == "t":
@@ -222,7 +253,8 @@ def case_from(cid, files, run_src_ops, extra_head=(), tail=(), inject="inject t 
     for name, src in files.items():
         path = "/c05/gen/%s.c" % name
         lines.append("src %s %s" % (path, hexs(src)))
-    lines += ["load probe /c05/probe", "load t /c05/gen/t", "load u1 /c05/user", "user u1", "setcg u1"]
+    lines += ["load probe /c05/probe", "load t /c05/gen/t", "load u1 /c05/user", "user u1", "load room /c05/room",
+              "load mob /c05/mob", "vapply mob enter", "setcg u1"]
     lines += list(extra_head)
     lines.append("# ops " + run_src_ops)
     lines.append(inject)
@@ -234,7 +266,19 @@ def build_case(rng, cid, budget):
     b = Builder(rng, cid, budget)
     stmts, ops = b.block("t", 0, n=rng.range(1, 4))
     b.files["t"]["fns"].append("mixed run () { %s %s return 1; }" % (DECL, " ".join(stmts)))
+    como = rng.chance(1, 6)
+    if como:
+        # the evaluation is the real call_out() sweep: prep schedules two callbacks; an error in the first must not
+        # stop the second (resume point of call_out()), command_giver is the one the call_outs were scheduled with
+        b.files["t"]["fns"].append('void run2 () { VL ("say second"); }')
+        b.prep.append('remove_call_out ("run"); remove_call_out ("run2"); call_out ("run2", 0); call_out ("run", 0);')
+        b.kinds["callout"] = 1
     files = {name: b.source(name) for name in b.files}
+    if como:
+        c = case_from(cid, files, "(withcg u1 (safe 0 0 %s)) (withcg u1 (safe 0 0 (say second)))" % " ".join(ops),
+                      inject="injectco")
+        c.meta["kinds"] = b.kinds
+        return c
     reg = ""
     if rng.chance(1, 8):
         reg = " " + rng.choice(["co", "po"]) + " probe"
@@ -244,7 +288,7 @@ def build_case(rng, cid, budget):
 
 
 def fixed_case(cid, run_body, ops, fns=(), prep="", tail=(), inject="inject t run", vname=""):
-    src = "\n".join([l.replace("CREATE", "") for l in HEAD] + list(fns) +
+    src = "\n".join([l.replace("CREATE", "").replace("GLOBALS", "") for l in HEAD] + list(fns) +
                     ['string vname () { %s return "n"; }' % vname,
                      "void prep () { object p0; vsel = 0; %s }" % prep,
                      "mixed run () { %s %s return 1; }" % (DECL, run_body)]) + "\n"
@@ -259,13 +303,20 @@ CATCHSTMT = 'p0 = this_player (); e = catch (%s); VL ("catch " + e + (e && this_
 class C05(Prop):
     id = "C05"
     title = "after any LPC error the machine state is as before the failed call"
-    lean_modules = ["NV.C05.Props", "NV.C05.Witness"]
-    theorems = ["NV.C05.restore_is_inverse", "NV.C05.handlers_run_exactly_once", "NV.C05.handler_not_run_on_normal_exit",
+    lean_modules = ["NV.C05.Exec", "NV.C05.Props", "NV.C05.Witness"]
+    theorems = ["NV.C05.model_satisfies_spec", "NV.C05.exec_keeps_extension", "NV.C05.top_restores", "NV.C05.catch_yields_message_exec",
+                "NV.C05.guards_reset_first_level", "NV.C05.exec_good", "NV.C05.execCore_good", "NV.C05.raise_rspec",
+                "NV.C05.runHandler_spec",
+                "NV.C05.restore_is_inverse", "NV.C05.handlers_run_exactly_once", "NV.C05.handler_not_run_on_normal_exit",
                 "NV.C05.catch_yields_message", "NV.C05.raise_sets_catch_value", "NV.C05.throw_sets_catch_value",
                 "NV.C05.context_chain_restored_catch", "NV.C05.context_chain_restored_safe",
                 "NV.C05.context_chain_restored_top", "NV.C05.raise_not_ok", "NV.C05.guards_reset",
                 "NV.C05.install_atomic", "NV.C05.restoreContext_ext", "NV.C05.popN_append"]
-    witness_theorems = ["NV.C05.negative_pop_is_a_crash", "NV.C05.changed_register_is_not_restored"]
+    witness_theorems = ["NV.C05.prefix_input_to_leaves_sentence", "NV.C05.fixed_input_to_leaves_nothing",
+                        "NV.C05.prefix_safe_apply_surplus_crashes", "NV.C05.fixed_safe_apply_surplus_recovers",
+                        "NV.C05.prefix_safe_apply_leaks_argument", "NV.C05.fixed_safe_apply_end_to_end",
+                        "NV.C05.negative_pop_is_a_crash", "NV.C05.changed_register_is_not_restored",
+                        "NV.C05.throw_does_not_reset_guards", "NV.C05.error_resets_guards_example"]
     consts = [("frameFunction", "FRAME_FUNCTION"), ("frameFunp", "FRAME_FUNP"), ("frameCatch", "FRAME_CATCH"),
               ("frameFake", "FRAME_FAKE"), ("frameMask", "FRAME_MASK"),
               ("esStackFull", "ES_STACK_FULL"), ("esMaxEvalCost", "ES_MAX_EVAL_COST"),
@@ -277,7 +328,7 @@ class C05(Prop):
     thorough_n = 600
     search_n = 150
     design_ref = "5/C05"
-    technique = ("Lean 4 proof (big-step error-recovery machine, mutual induction over op trees) + translator-generated "
+    technique = ("Lean 4 proof (big-step error-recovery machine; the core induction over all op trees is proved; top theorem model_satisfies_spec) + translator-generated "
                  "constants + fault injection at every instruction of generated LPC programs (hook H2), model/implementation "
                  "correspondence on outcome sets, register snapshots and control-stack shapes")
     level_text = ("Lean 4 theorems about an executable model of save_context/restore_context/pop_context, "
@@ -288,14 +339,14 @@ class C05(Prop):
                   "with the model; the Lean oracle judges every implementation trace")
     level_note = ("trusted: Lean kernel; extract.py; the correspondence harness (differential, only the generated programs); "
                   "registers are opaque values; value-stack depths of efun temporaries are approximated by the generator; "
-                  "heart-beat switch-off in error_handler, console-mode resume and move/destruct hooks are not generated")
+                  "heart-beat switch-off in error_handler and console-mode resume are not generated")
     rule = ("cases = corpus + known-finding inputs + boundary list + seeded random LPC programs (nested local calls, "
             "call_other incl. surplus arguments, function pointers of every kind, map/filter/sort_array/unique_array "
             "callbacks, catch in catch, error()/throw(), safe applies via sprintf(\"%O\"), create() in load_object/new, "
-            "input_to, enable_commands); every program is run once per instruction with a fault injected there; a case "
+            "input_to, enable_commands, init() hooks via move_object, move_or_destruct() hooks via destruct, and the program "
+            "as a callback of the real call_out() sweep); every program is run once per instruction with a fault injected there; a case "
             "is non-trivial when its trace has >= 2 lines; distinct = distinct canonical implementation trace")
-    not_covered = ["errors inside init()/move_or_destruct() hooks are not generated (the guard reset of restrict_destruct is only proved on the model)",
-                   "heart-beat switch-off in error_handler and the backend()/call_out() resume points are not exercised",
+    not_covered = ["heart-beat switch-off in error_handler, the backend() main-loop resume point and reset()/clean_up() recovery are not exercised (the call_out() sweep resume point is)",
                    "C locals of efuns that are live across a longjmp (observed via ASan only)",
                    "value-stack depths inside efuns are approximated (only the depth after recovery is observed)"]
 
